@@ -13,6 +13,22 @@ from .peers import H11Peer, SocksPeer, TunnelPeer, default_plan
 from .simnet import FakeSSLContext, SimBackend, SimNet, World, WouldHang
 
 ORIGIN_HOST = "origin.test"
+ORIGIN_V6 = "2001:db8::5"
+EXT_TARGET = b"/ext%2Ftarget;p=1?z=9"
+# concretisation variants of a case (the abstract case - what the specification sees - is the same, which is
+# the point: none of them changes what a hop is owed): a connect timeout shorter than the back-off pauses, the
+# caller's 'target' extension, an origin given as an IPv6 literal
+VARIANT_KEYS = ("tight", "tgtExt", "v6")
+
+
+def origin_host(case):
+    """The origin's host as the network sees it (connect_tcp, SNI, SOCKS address)."""
+    return ORIGIN_V6 if case.get("v6") else ORIGIN_HOST
+
+
+def origin_authority(case):
+    """... and as it is written in a URL, a Host header or a CONNECT target."""
+    return "[" + ORIGIN_V6 + "]" if case.get("v6") else ORIGIN_HOST
 PROXY_HOST = "proxy.test"
 SNI_HOST = "sni.test"
 TMO = {"connect": 3, "read": 5, "write": 7, "pool": 11}
@@ -115,7 +131,9 @@ def request_args(case):
         ext["timeout"] = dict(TMO_TIGHT if case.get("tight") else TMO)
     if case["sniExt"]:
         ext["sni_hostname"] = SNI_HOST
-    url = f"{case['scheme']}://{ORIGIN_HOST}/x"
+    if case.get("tgtExt"):
+        ext["target"] = EXT_TARGET
+    url = f"{case['scheme']}://{origin_authority(case)}/x"
     return url, ext
 
 
@@ -123,7 +141,7 @@ MARKERS = {"callerBody": b"bodymark", "callerHeader": b"callermark", "proxyAuth"
 
 
 def caller_headers(case):
-    h = [(b"Host", ORIGIN_HOST.encode()), (b"X-Caller", b"callermark")]
+    h = [(b"Host", origin_authority(case).encode()), (b"X-Caller", b"callermark")]
     if case.get("phdr") == "collide":
         h.append((b"x-shared", b"callermark2"))
     if case.get("body"):
@@ -233,7 +251,7 @@ def run_sync(case, outcomes, refuse):
             mark = len(net.ops)
             result["ops_mark"] = mark
             try:
-                r2 = pool.handle_request(httpcore.Request("GET", url.replace("/x", "/y"), headers=[(b"Host", ORIGIN_HOST.encode()), (b"X-Caller2", b"second2mark")], extensions=ext))
+                r2 = pool.handle_request(httpcore.Request("GET", url.replace("/x", "/y"), headers=[(b"Host", origin_authority(case).encode()), (b"X-Caller2", b"second2mark")], extensions=ext))
                 try:
                     r2.read()
                 finally:
@@ -242,7 +260,7 @@ def run_sync(case, outcomes, refuse):
                 line = data2.split(b"\r\n")[0]
                 result["second"] = {
                     "carries": carries(data2),
-                    "form": "absolute" if (b" http://" in line or b" https://" in line or b" ws://" in line) else "origin",
+                    "form": request_form(case, data2),
                     "dup": has_dup(data2),
                     "connects": sum(1 for op in net.ops[mark:] if op.kind in ("connect_tcp", "connect_unix")),
                     "res": "ok",
@@ -324,13 +342,13 @@ def abstract(case, net, result):
         a = op.args
         tmo = TMO_NAME.get(a.get("timeout"), "weird:%r" % (a.get("timeout"),))
         if op.kind == "connect_tcp":
-            to = "proxy" if a["host"] == PROXY_HOST else ("origin" if a["host"] == ORIGIN_HOST else "other:" + str(a["host"]))
+            to = "proxy" if a["host"] == PROXY_HOST else ("origin" if a["host"] == origin_host(case) else "other:" + str(a["host"]))
             ops.append({"op": "tcp", "to": to, "tmo": tmo, "res": res})
         elif op.kind == "connect_unix":
             ops.append({"op": "uds", "tmo": tmo, "res": res})
         elif op.kind == "start_tls":
             sni = a.get("server_hostname")
-            sni = {ORIGIN_HOST: "origin", PROXY_HOST: "proxy", SNI_HOST: "ext"}.get(sni, "other:" + str(sni))
+            sni = {origin_host(case): "origin", PROXY_HOST: "proxy", SNI_HOST: "ext"}.get(sni, "other:" + str(sni))
             offer = list(a["alpn_at_call"]) if "alpn_at_call" in a else list(getattr(a.get("ssl_context"), "alpn", None) or [])
             alpn = "h1h2" if offer == ["http/1.1", "h2"] else ("h1" if offer == ["http/1.1"] else "other:" + ",".join(offer))
             rec = net.streams[op.sid]
@@ -347,7 +365,7 @@ def abstract(case, net, result):
                 continue  # h11 emits b"" for EndOfMessage; the real backends skip empty writes
             what = classify(case, rec, op, data, stage)
             if what == "request":
-                form = "absolute" if b" http://" in data.split(b"\r\n")[0] or b" https://" in data.split(b"\r\n")[0] or b" ws://" in data.split(b"\r\n")[0] else "origin"
+                form = request_form(case, data)
                 proto = "h2" if data.startswith(b"PRI * HTTP/2.0") else "h1"
                 via = "proxy" if rec.host == PROXY_HOST else "origin"
                 ops.append({"op": "request", "proto": proto, "form": form, "via": via, "carries": carries(data), "dup": has_dup(data) if proto == "h1" else False, "tmo": tmo, "res": res})
@@ -423,7 +441,7 @@ def write_details(case, what, data):
         line = data.split(b"\r\n")[0]
         target = line.split(b" ")[1] if len(line.split(b" ")) == 3 else b""
         hosts = [ln.split(b":", 1)[1].strip() for ln in data.split(b"\r\n")[1:] if ln.lower().startswith(b"host:")]
-        want = b"%s:%d" % (ORIGIN_HOST.encode(), port)
+        want = b"%s:%d" % (origin_authority(case).encode(), port)
         ok = target == want and hosts == [want]
         return {"names": "origin" if ok else "other:" + target.decode("latin1"), "carries": carries(data), "dup": has_dup(data)}
     if what == "socks-greet":
@@ -436,9 +454,27 @@ def write_details(case, what, data):
             n = data[4]
             host = data[5 : 5 + n]
             p = int.from_bytes(data[5 + n : 7 + n], "big")
-            ok = host == ORIGIN_HOST.encode() and p == port
+            ok = host == origin_host(case).encode() and p == port
         return {"names": "origin" if ok else "other"}
     return {}
+
+
+def request_form(case, data):
+    """'absolute' / 'origin' only if the request line carries EXACTLY the absolute URL (scheme://authority +
+    target) resp. exactly the target - the caller's 'target' extension when given, else the URL's path."""
+    if data.startswith(b"PRI * HTTP/2.0"):
+        return "origin"
+    parts = data.split(b"\r\n")[0].split(b" ")
+    tgt = parts[1] if len(parts) == 3 else b"?"
+    path = EXT_TARGET if case.get("tgtExt") else b"/x"
+    if tgt in (path, path.replace(b"/x", b"/y")):
+        return "origin"
+    port = {"http": 80, "https": 443, "ws": 80, "wss": 443}[case["scheme"]]
+    auth = origin_authority(case).encode()
+    for a in (auth, auth + b":%d" % port):
+        if tgt in (case["scheme"].encode() + b"://" + a + path, case["scheme"].encode() + b"://" + a + path.replace(b"/x", b"/y")):
+            return "absolute"
+    return "other:" + tgt.decode("latin1")[:80]
 
 
 def tls_hop(case, rec, stage):
@@ -474,7 +510,7 @@ def record(case, outcomes, refuse, mode):
     extra = {"second": result["second"]} if "second" in result else {}
     return {
         **extra,
-        "case": {k: v for k, v in case.items() if k != "tight"},
+        "case": {k: v for k, v in case.items() if k not in VARIANT_KEYS},
         "ops": ops,
         "result": res,
         "open_after": open_after,
